@@ -55,6 +55,36 @@ FAMILIES = {
     "nest-complit-in-bound": lambda k: "int v = " + "((int[" * k + "0" + "]){0})" * k + ";",
     "nest-unary": lambda k: "int v = " + "- " * k + "a;",
     "nest-declparen": lambda k: "int " + "(" * k + "x" + ")" * k + ";",
+    # every place where the parser decides "type name or expression?" after a '(' nested inside itself
+    "nest-sizeof-complit-in-bound": lambda k: "unsigned long v = " + "sizeof (int[" * k + "1" + "]){0}" * k + ";",
+    "nest-alignof-in-bound": lambda k: "unsigned long v = " + "_Alignof(int[" * k + "1" + "])" * k + ";",
+    "nest-cast-in-bound": lambda k: "void *v = " + "(int(*)[" * k + "1" + "])p" * k + ";",
+    "nest-alignas-in-bound": lambda k: "_Alignas(" + "sizeof(int[" * k + "1" + "])" * k + ") int x;",
+    "nest-offsetof": lambda k: "unsigned long v = " + "offsetof(struct S, a[" * k + "0" + "])" * k + ";",
+    "nest-fnptr-param": lambda k: "void f(" + "void (*g)(" * k + "int" + ")" * k + ");",
+    "nest-struct-in-sizeof": lambda k: "unsigned long v = " + "sizeof(struct {int a[" * k + "1" + "];})" * k + ";",
+    "nest-typedef-cast-paren": lambda k: "typedef int T; int v = " + "(T)(" * k + "x" + ")" * k + ";",
+    "nest-paren-callee": lambda k: "int v = " + "(f)(" * k + "x" + ")" * k + ";",
+    "nest-designator-member": lambda k: "struct S s = " + "{ .a = " * k + "1" + " }" * k + ";",
+    "nest-designator-index": lambda k: "int a[] = " + "{ [0] = " * k + "1" + " }" * k + ";",
+    "nest-atomic-typename": lambda k: "int v = " + "sizeof(_Atomic(int(*)[" * k + "1" + "]))" * k + ";",
+    "nest-static-assert": lambda k: "_Static_assert(" + "sizeof(int[" * k + "1" + "])" * k + ", \"m\");",
+    "nest-abstract-declarator": lambda k: "int v = sizeof(int " + "(*" * k + ")" * k + ");",
+    "nest-complit-postfix": lambda k: "int v = " + "(int[" * k + "1" + "]){0}[0]" * k + ";",
+    # statement nesting
+    "nest-while": lambda k: "void f(void) { " + "while (a) " * k + "x; }",
+    "nest-for": lambda k: "void f(void) { " + "for (int i = 0; i < n; i++) " * k + "x; }",
+    "nest-do": lambda k: "void f(void) { " + "do " * k + "x;" + " while (a);" * k + " }",
+    "nest-switch-case": lambda k: "void f(void) { " + "switch (a) case 1: " * k + "x; }",
+    "nest-label": lambda k: "void f(void) { " + "".join("L%d: " % i for i in range(k)) + "x; }",
+    "nest-if-compound": lambda k: "void f(void) { " + "if (a) { " * k + "x;" + " }" * k + " }",
+    "rep-kr-params": lambda k: "int f(" + ",".join("p%d" % i for i in range(k)) + ") " + "".join("int p%d;" % i for i in range(k)) + " { return 0; }",
+    "rep-declarators": lambda k: "int " + ",".join("*v%d[2]" % i for i in range(k)) + ";",
+    "rep-pragma": lambda k: "void f(void) {" + "\n#pragma omp x\n x;" * k + "}",
+    "rep-designators": lambda k: "struct S s = {" + ",".join(".m%d = %d" % (i, i) for i in range(k)) + "};",
+    "rep-static-assert": lambda k: "_Static_assert(1, \"a\");" * k,
+    "rep-compound-literal": lambda k: "void f(void) {" + "g((struct P){1, 2});" * k + "}",
+    "rep-sizeof-complit": lambda k: "void f(void) {" + "n += sizeof (int[2]){1, 2};" * k + "}",
 }
 NESTING = {n for n in FAMILIES if n.startswith("nest-")}
 
@@ -92,13 +122,57 @@ class Counter:
         return r[0], self.calls, self.ts, self.lex
 
 
+BUDGET_S = 20
+
+
+class _Timeout(BaseException):
+    pass
+
+
 def measure(args):
+    """one family instance under a wall-clock budget (an exponential blow-up must not hang the check)"""
+    import signal
     name, k = args
     text = FAMILIES[name](k)
     c = Counter()
     t0 = time.time()
-    st, calls, ts, lex = c.run(text)
+
+    def onalarm(sig, frm):
+        raise _Timeout()
+
+    old = signal.signal(signal.SIGALRM, onalarm)
+    signal.setitimer(signal.ITIMER_REAL, BUDGET_S)
+    try:
+        st, calls, ts, lex = c.run(text)
+    except _Timeout:
+        sys.setprofile(None)
+        st, calls, ts, lex = "TIMEOUT", c.calls, c.ts, c.lex
+    finally:
+        signal.setitimer(signal.ITIMER_REAL, 0)
+        signal.signal(signal.SIGALRM, old)
     return (name, k, len(text), st, calls, ts, lex, time.time() - t0, text)
+
+
+def too_fast(a, b):
+    """work of instance b vs the smaller instance a of the same family grows faster than ~linearly"""
+    return b[4] / max(1, a[4]) > (b[2] / max(1, a[2])) * 1.35 + 0.2
+
+
+def measure_family(args):
+    """sizes in ascending order; stop at the first size that times out or grows too fast"""
+    name, ks = args
+    rows = []
+    for k in ks:
+        r = measure((name, k))
+        rows.append(r)
+        if r[3] == "TIMEOUT" or (len(rows) > 1 and rows[-2][3] == "OK" and r[3] == "OK" and too_fast(rows[-2], r)):
+            break
+    return rows
+
+
+def measure_text(text):
+    c = Counter()
+    return c.run(text)
 
 
 REGEX_FAMILIES = {
@@ -131,8 +205,10 @@ def lex_time(args):
 def run(ctx):
     ks_rep = [40, 80, 160] if ctx.quick() else [50, 100, 200, 400, 800]
     ks_nest = [10, 20, 40] if ctx.quick() else [10, 20, 40, 60]
-    jobs = [(n, k) for n in FAMILIES for k in (ks_nest if n in NESTING else ks_rep)]
-    res = pmap(measure, jobs)
+    ks_choice = [4, 8, 16] if ctx.quick() else [4, 8, 16, 24]      # 'type name or expression?' decisions nested in themselves
+    CHOICE = {n for n in FAMILIES if n in NESTING and any(w in n for w in ("-in-bound", "sizeof", "alignof", "offsetof", "complit", "atomic", "static-assert", "typedef-cast", "paren-callee", "abstract", "fnptr"))}
+    fam_jobs = [(n, ks_choice if n in CHOICE else (ks_nest if n in NESTING else ks_rep)) for n in FAMILIES]
+    res = [r for rows in pmap(measure_family, fam_jobs) for r in rows]
     by = {}
     for r in res:
         by.setdefault(r[0], []).append(r)
@@ -142,6 +218,10 @@ def run(ctx):
         name, k, size, st, calls, ts, lex, wall, text = r
         n_eval += 1
         if st == "FUEL":
+            continue
+        if st == "TIMEOUT":
+            ctx.violation("family %s size %d (%d characters) did not finish within %d s (%d Python calls so far)" % (name, k, size, BUDGET_S, calls),
+                          {"kind": "family", "family": name, "k": k})
             continue
         if st != "OK":
             print("NOTE: family %s size %d is not accepted (%s); skipped" % (name, k, st))
@@ -158,11 +238,27 @@ def run(ctx):
             ratio_size = b[2] / max(1, a[2])
             ratio_calls = b[4] / max(1, a[4])
             # doubling the size may at most roughly double the work (a logarithmic factor is allowed)
-            if ratio_calls > ratio_size * 1.35 + 0.2:
+            if too_fast(a, b):
                 ctx.violation("work grows faster than linearly on family %s: size x%.2f (k=%d->%d) but Python calls x%.2f (%d -> %d)" % (name, ratio_size, a[1], b[1], ratio_calls, a[4], b[4]),
                               {"kind": "family", "family": name, "k": b[1]})
         if rows and rows[-1][7] > 5.0:
             ctx.violation("family %s size %d (%d characters) took %.1f s" % (name, rows[-1][1], rows[-1][2], rows[-1][7]), {"kind": "family", "family": name, "k": rows[-1][1]})
+    # tick equality on every program of the pool: any construct whose token-stream traffic differs from
+    # the model's (e.g. a second speculative parse) shows here even at nesting depth 1
+    from .. import progs
+    ptexts = [t for t in progs.pool(ctx, scale=0.15) if len(t) < 1500]
+    pres = pmap(measure_text, ptexts)
+    pmd = run_model([req("cost", "f.c", t) for t in ptexts]) if ctx.model_available else None
+    if pmd is not None:
+        for t, r, m in zip(ptexts, pres, pmd):
+            n_eval += 1
+            if r[0] != "OK":
+                continue
+            f = m.split("\t")
+            if f[0] != "OK" or int(f[1]) != r[2] or int(f[2]) != r[3]:
+                ctx.violation("cost correspondence: real parser made %d token-stream calls / %d lexer calls, the Lean model counts %s on %r" % (r[2], r[3], m[:40], t[:120]),
+                              {"kind": "costtext", "text": t})
+    ctx.extra["pool_programs_tick_equal"] = len(ptexts)
     ctx.extra["families"] = {name: [(r[1], r[2], r[4], r[5]) for r in sorted(rows, key=lambda r: r[1]) if r[3] == "OK"] for name, rows in by.items()}
     # adversarial literal families: wall time with wide margins, and linear growth of time is not asserted
     sizes = [200, 2000] if ctx.quick() else [200, 2000, 20000]
@@ -173,18 +269,23 @@ def run(ctx):
         if wall > limit:
             ctx.violation("lexer took %.1f s on %d characters of family %s" % (wall, size, name), {"kind": "regex-family", "family": name, "n": n})
     ctx.extra["regex_families_max_wall_s"] = round(max(w for _, _, _, w in lres), 3)
-    ctx.rule("%d scalable families (k-fold repetition of every declaration/statement kind; depth-k nesting of parentheses, casts, sizeof, calls, subscripts, initializer braces, blocks, if/else and ?: chains, pointer/array/function declarators, structs, compound literals, type names and compound literals inside array bounds) at 3-5 sizes: deterministic step count (Python call events in pycparser via sys.setprofile) must grow at most ~linearly between consecutive sizes, token-stream and lexer call counts must equal the Lean model's tick counters exactly; %d adversarial literal families for the lexer regexes with wall-time margins" % (len(FAMILIES), len(REGEX_FAMILIES)))
+    ctx.rule("%d scalable families (k-fold repetition of every declaration/statement kind; depth-k nesting of parentheses, casts, sizeof, calls, subscripts, initializer braces, blocks, if/else and ?: chains, pointer/array/function declarators, structs, compound literals, type names and compound literals inside array bounds, every 'type name or expression?' decision nested inside itself: sizeof / _Alignof / cast / _Alignas / offsetof / _Atomic( / _Static_assert / compound literal with and without postfix, function-pointer parameters, designators; loops, switch/case, labels) at 3-5 sizes: deterministic step count (Python call events in pycparser via sys.setprofile) must grow at most ~linearly between consecutive sizes, token-stream and lexer call counts must equal the Lean model's tick counters exactly, on the families and on every program of the pool; %d adversarial literal families for the lexer regexes with wall-time margins" % (len(FAMILIES), len(REGEX_FAMILIES)))
     ctx.count(n_eval, nontrivial_n=n_eval)
     ctx.sample({"kind": "family", "name": "nest-complit-in-bound", "k": 3, "text": FAMILIES["nest-complit-in-bound"](3)})
 
 
 def replay(ctx, payload):
     i = payload["input"]
+    if i["kind"] == "costtext":
+        r = measure_text(i["text"])
+        m = run_model([req("cost", "f.c", i["text"])])[0].split("\t")
+        print(r, m)
+        return r[0] != "OK" or (m[0] == "OK" and int(m[1]) == r[2] and int(m[2]) == r[3])
     if i["kind"] == "family":
         a = measure((i["family"], max(2, i["k"] // 2)))
         b = measure((i["family"], i["k"]))
         print(a[:8], b[:8])
-        return b[4] / max(1, a[4]) <= (b[2] / max(1, a[2])) * 1.35 + 0.2
+        return b[3] != "TIMEOUT" and not too_fast(a, b)
     r = lex_time((i["family"], i["n"]))
     print(r)
     return r[3] < 8
